@@ -81,6 +81,21 @@ OPTIONS_AFFECTING_CACHE: Final = (
         "untyped_calls_exclude",
         "enable_incomplete_feature",
         "install_types",
+        # Global options that are read while a module is analyzed or while its
+        # diagnostics are rendered into the (cached) error tuples.
+        "allow_empty_bodies",
+        "custom_typing_module",
+        "deprecated_calls_exclude",
+        "hide_error_codes",
+        "many_errors_threshold",
+        "pos_only_special_methods",
+        "report_deprecated_as_note",
+        "reveal_verbose_types",
+        "show_absolute_path",
+        "show_error_code_links",
+        "show_error_context",
+        "warn_incomplete_stub",
+        "warn_redundant_casts",
     }
 ) - {"debug_cache"}
 
